@@ -137,20 +137,27 @@ pub fn run_mode(ctx: &mut Ctx, mode: Mode) -> Verdict {
             }
         }
     }
+    let drops_mode = mode == Mode::DropReaders;
+    let (c_wrong, c_failed, c_stuck, c_unusable) = if drops_mode {
+        ("wrong-reply-after-drop", "survivor-failed-after-drop", "survivor-stuck-after-drop", "session-unusable-after-drop")
+    } else {
+        ("wrong-reply", "request-failed", "caller-waits-forever", "later-request-fails")
+    };
+    let after = if drops_mode { format!(" after the reply futures of {:?} were dropped", o.dropped) } else { String::new() };
     for (k, r) in o.results.iter().enumerate() {
         let tag = format!("TAG-{}-", k + 1);
         let dropped = o.dropped.contains(&k);
         match r {
             Res::Ok(v) if v.contains(&tag) => {}
-            Res::Ok(v) => return Verdict::violation(format!("wrong-reply-after-drop/{t}"), format!("{}: request #{k} resolved to {v}", sc.label)),
+            Res::Ok(v) => return Verdict::violation(format!("{c_wrong}/{t}"), format!("{}: request #{k} resolved to {v}", sc.label)),
             Res::Hang if dropped => {}
-            Res::Err(e) => return Verdict::violation(format!("survivor-failed-after-drop/{t}"), format!("{}: request #{k} (not dropped) failed after the reply futures of {:?} were dropped: {e}", sc.label, o.dropped)),
-            Res::Hang => return Verdict::violation(format!("survivor-stuck-after-drop/{t}"), format!("{}: request #{k} (not dropped) never completed after the reply futures of {:?} were dropped; results {:?}", sc.label, o.dropped, o.results)),
+            Res::Err(e) => return Verdict::violation(format!("{c_failed}/{t}"), format!("{}: request #{k} failed{after}: {e}", sc.label)),
+            Res::Hang => return Verdict::violation(format!("{c_stuck}/{t}"), format!("{}: request #{k} never completed{after}; results {:?}", sc.label, o.results)),
         }
     }
     match &o.extra {
         Some(Res::Ok(v)) if v.contains(&format!("TAG-{}-", n + 1)) => {}
-        other => return Verdict::violation(format!("session-unusable-after-drop/{t}"), format!("{}: the request issued after the drops of {:?} resolved to {other:?}", sc.label, o.dropped)),
+        other => return Verdict::violation(format!("{c_unusable}/{t}"), format!("{}: the request issued afterwards resolved to {other:?}{after}", sc.label)),
     }
     Verdict::Pass
 }
